@@ -62,6 +62,13 @@ def parseAtom : List String → Option Atom
 def parseCatch (s : String) : Catch :=
   if s == "any" then .any else if s == "std" then .std else .parse
 
+/-- `n` rule-level actions, each `id isBool vetoMod throwMod throwStd` -/
+def parseRuleActs : Nat → List String → List RuleAct
+  | 0, _ => []
+  | n + 1, k :: b :: v :: t :: s :: rest =>
+    { id := nat! k, isBool := b == "1", vetoMod := nat! v, throwMod := nat! t, throwStd := s == "1" } :: parseRuleActs n rest
+  | _, _ => []
+
 def parseKind : List String → Option Kind
   | "atom" :: rest => (parseAtom rest).map .atom
   | "seq" :: n :: rest => some (.seq ((rest.take (nat! n)).map nat!))
@@ -89,6 +96,9 @@ def parseKind : List String → Option Kind
   | ["disable", c] => some (.disable (nat! c))
   | ["action", f, c] => some (.action (nat! f) (nat! c))
   | ["state", d, c] => some (.state (d == "1") (nat! c))
+  | ["control", k, c] => some (.control (nat! k) (nat! c))
+  | "ifApply" :: c :: n :: rest => some (.ifApply (nat! c) (parseRuleActs (nat! n) rest))
+  | "applyR" :: n :: rest => some (.applyR (parseRuleActs (nat! n) rest))
   | _ => none
 
 def parseWrap (w : String) : Wrap :=
@@ -100,6 +110,8 @@ def parseWrap (w : String) : Wrap :=
   | ["lb", n] => .limitBytes (nat! n)
   | ["cs", mu] => .changeState (mu == "1")
   | ["cas", f, mu] => .changeActionAndState (nat! f) (mu == "1")
+  | ["cc"] => .changeControl 2
+  | ["cc", k] => .changeControl (nat! k)
   | _ => .none
 
 def parseAct : List String → ActionSpec
@@ -113,9 +125,9 @@ def showA : AMode → String | .action => "1" | .nothing => "0"
 def showM : RMode → String | .required => "r" | .optional => "o"
 
 def showEv : Ev → String
-  | .enter i a m c => s!"E {i} {showA a} {showM m} {showCur c}"
+  | .enter i a m c k => s!"E {i} {showA a} {showM m} {showCur c} {k}"
   | .exit i r c => s!"X {i} {r} {showCur c}"
-  | .start i c => s!"st {i} {showCur c}"
+  | .start i c k => s!"st {i} {showCur c} {k}"
   | .success i c => s!"su {i} {showCur c}"
   | .failure i c => s!"fa {i} {showCur c}"
   | .unwind i c => s!"uw {i} {showCur c}"
@@ -125,6 +137,7 @@ def showEv : Ev → String
   | .sctor d => s!"sc {d}"
   | .ssucc d c o => s!"ss {d} {showCur c} {o}"
   | .sdtor d => s!"sd {d}"
+  | .ruleApply k sd b e => s!"rp {k} {showCur b} {showCur e} {sd}"
 
 def showExc : Exc → String
   | .parse i c => s!"P {i} {showCur c}"
@@ -140,6 +153,7 @@ structure DState where
   fams : Array (Array ActionSpec) := #[]
   fuel : Nat := 3000
   sel : List (Nat × Sel) := []     -- parse-tree selector (C12); empty: no tree output
+  msgs : List Nat := []            -- rules the grammar's `must_if` message table has an entry for
   treeOn : Bool := false
 
 def parseSel (s : String) : Sel :=
@@ -152,7 +166,7 @@ def selPairs : List String → List (Nat × Sel)
 /-- dynamic check of the side condition of C12_tree: no selected rule is entered below a rule classified `leaf` -/
 def leafSoundTrace (cls : Nat → Cls) : List Bool → List Ev → Bool
   | _, [] => true
-  | stk, .enter i _ _ _ :: es =>
+  | stk, .enter i _ _ _ _ :: es =>
     let under := stk.any id
     match cls i with
     | .sel _ => !under && leafSoundTrace cls (false :: stk) es
@@ -182,11 +196,16 @@ def setFam (fs : Array (Array ActionSpec)) (f i : Nat) (a : ActionSpec) : Array 
   let row := if row.size ≤ i then row ++ Array.replicate (i + 1 - row.size) default else row
   fs.set! (f - 1) (row.set! i a)
 
-def runCase (ds : DState) (ts : List String) : List String :=
+def runCase (ds : DState) (ts0 : List String) : List String :=
+  -- an optional 13th field: 1 = the run's control is the grammar's `must_if` control
+  let (ts, mi) := match ts0 with
+    | [cid, root, a, m, eol, lz, uw, ib, il, ic, fam, hex, mi] => ([cid, root, a, m, eol, lz, uw, ib, il, ic, fam, hex], mi == "1")
+    | _ => (ts0, false)
   match ts with
   | [cid, root, a, m, eol, lz, uw, ib, il, ic, fam, hex] =>
     let cx : Ctx := { g := ds.g, inp := parseHex hex, eol := parseEol eol, lazy := lz == "1",
-                      init := ⟨nat! ib, nat! il, nat! ic⟩, unwind := uw == "1", fams := ds.fams }
+                      init := ⟨nat! ib, nat! il, nat! ic⟩, unwind := uw == "1", fams := ds.fams,
+                      msgs := if mi then ds.msgs else [] }
     let am := if a == "1" then AMode.action else .nothing
     let rm := if m == "r" then RMode.required else .optional
     match run cx ds.fuel (nat! root) am rm { fam := nat! fam } cx.start with
@@ -217,7 +236,8 @@ def semCase (ds : DState) (ts : List String) : List String :=
 
 def step (ds : DState) (line : String) : DState × List String :=
   match (line.trimAscii.toString.splitOn " ").filter (· ≠ "") with
-  | ["G", _gid] => ({ ds with g := #[], fams := #[], sel := [], treeOn := false }, [])
+  | ["G", _gid] => ({ ds with g := #[], fams := #[], sel := [], treeOn := false, msgs := [] }, [])
+  | "MI" :: rest => ({ ds with msgs := rest.map (nat! ·) }, [])
   | "SEL" :: rest => ({ ds with sel := selPairs rest, treeOn := true }, [])
   | ["FUEL", n] => ({ ds with fuel := nat! n }, [])
   | "N" :: id :: ctl :: k :: b :: v :: t :: s :: w :: rest =>
